@@ -643,26 +643,31 @@ package statedb
 //@   property C02 C03 C04 C07 C08 C09
 //@   flag nosafety
 //@   flag assumepre=transaction-table-entries-well-formed
+//@   mustcall insert@1 when @always-delegates-to-the-transaction true
 //@   atcall (*writeTxnState).insert@1 requires @no-guard $2 == 0 && unboxptr($1) == t
 //@ func (*genTable).CompareAndSwap
 //@   property C02 C03 C04 C07 C08 C09
 //@   flag nosafety
 //@   flag assumepre=transaction-table-entries-well-formed
+//@   mustcall insert@1 when @always-delegates-to-the-transaction true
 //@   atcall (*writeTxnState).insert@1 requires @guard-is-the-callers-revision $2 == rev && unboxptr($1) == t
 //@ func (*genTable).Modify
 //@   property C02 C03 C04 C07 C08 C09
 //@   flag nosafety
 //@   flag assumepre=transaction-table-entries-well-formed
+//@   mustcall modify@1 when @always-delegates-to-the-transaction true
 //@   atcall (*writeTxnState).modify@1 requires @no-guard $2 == 0 && unboxptr($1) == t
 //@ func (*genTable).Delete
 //@   property C02 C03 C04 C07 C08 C09
 //@   flag nosafety
 //@   flag assumepre=transaction-table-entries-well-formed
+//@   mustcall delete@1 when @always-delegates-to-the-transaction true
 //@   atcall (*writeTxnState).delete@1 requires @no-guard $2 == 0 && unboxptr($1) == t
 //@ func (*genTable).CompareAndDelete
 //@   property C02 C03 C04 C07 C08 C09
 //@   flag nosafety
 //@   flag assumepre=transaction-table-entries-well-formed
+//@   mustcall delete@1 when @always-delegates-to-the-transaction true
 //@   atcall (*writeTxnState).delete@1 requires @guard-is-the-callers-revision $2 == rev && unboxptr($1) == t
 
 // reindex of a radix-tree index (C04): whenever the object existed before (old.revision != 0) its
@@ -751,3 +756,76 @@ package statedb
 //@   mustcall setRevision@1 when @tracker-revision-set true
 //@   mustcall addDeleteTracker@1 when @tracker-registered true
 //@   mustcall refresh@1 when @iterator-primed err == nil
+
+// Snapshot accessors of a write transaction (C02, C07, C09): the committed root is the root the
+// transaction was opened on (never the database's current one), the working root is its own
+// entry slice, and a table entry is read from that slice - for locked and unlocked tables alike.
+//@ func (*writeTxnState).committedRoot
+//@   property C02 C07 C09 C01
+//@   pure
+//@   requires txn != nil && txn.oldRoot != nil
+//@   ensures @the-root-the-transaction-was-opened-on result == *txn.oldRoot
+//@ func (*writeTxnState).root
+//@   property C02 C07 C09 C01
+//@   pure
+//@   requires txn != nil
+//@   ensures @own-entries result == txn.tableEntries
+//@ func (*writeTxnState).getTableEntry
+//@   property C02 C09 C01
+//@   pure
+//@   flag nosafety
+//@   requires txn != nil
+//@   ensures @entry-of-the-transactions-snapshot result == txn.tableEntries[tposOf(meta)]
+
+// The table's write lock exists from construction on and the accessor only reads it (C05, C10).
+//@ func (*genTable).sortableMutex
+//@   property C05 C10
+//@   pure
+//@   requires t != nil
+//@   ensures result == t.smu
+
+// Index constructors (C06): a fresh LPM index starts with an open watch channel, so that a query
+// on a table that was never written still hands out a channel that the first commit closes.
+//@ func NetIPPrefixIndex.newTableIndex
+//@   property C06
+//@   flag nosafety
+//@   ensures @starts-with-a-watch-channel unboxas(lpmIndex, result).watch != nil && fresh(unboxas(lpmIndex, result).watch)
+//@ func LPMIndex.newTableIndex
+//@   property C06
+//@   flag nosafety
+//@   ensures @starts-with-a-watch-channel unboxas(lpmIndex, result).watch != nil && fresh(unboxas(lpmIndex, result).watch)
+
+// Queries through an index transaction (C01): every iterator-returning query works on a Clone of
+// the part transaction taken at query time (the clone freezes the tree: later writes of the same
+// write transaction - or of a later one recycling the Txn object - are not seen by the result).
+//@ func (*partIndexTxn).all
+//@   property C01 C02 C04
+//@   flag nosafety
+//@   requires r != nil && r.tx != nil
+//@   mustcall Clone@1 when @query-on-a-frozen-clone true
+//@ func (*partIndexTxn).list
+//@   property C01 C02 C04
+//@   flag nosafety
+//@   requires r != nil && r.tx != nil
+//@   mustcall Clone@1 when @query-on-a-frozen-clone true
+//@ func (*partIndexTxn).lowerBound
+//@   property C01 C02 C04
+//@   flag nosafety
+//@   requires r != nil && r.tx != nil
+//@   mustcall Clone@1 when @query-on-a-frozen-clone true
+//@ func (*partIndexTxn).lowerBoundNext
+//@   property C01 C02 C04
+//@   flag nosafety
+//@   requires r != nil && r.tx != nil
+//@   mustcall Clone@1 when @query-on-a-frozen-clone true
+//@ func (*partIndexTxn).prefix
+//@   property C01 C02 C04
+//@   flag nosafety
+//@   requires r != nil && r.tx != nil
+//@   mustcall Clone@1 when @query-on-a-frozen-clone true
+//@ func NewTableAny returns (tbl, err)
+//@   property C05 C10
+//@   flag nosafety
+//@   maypanic
+//@   flag assumepre=no-root-mutex-held-by-the-caller
+//@   mustcall NewSortableMutex@1 when @write-lock-created-with-the-table err == nil
